@@ -16,6 +16,7 @@ RULE = ("one case = one history (sequence of operations); checked after every st
 ANCHORS = ["decaylanguage.utils.utilities:DescriptorFormat.__enter__", "decaylanguage.utils.utilities:DescriptorFormat.__exit__",
            "decaylanguage.utils.utilities:DescriptorFormat.set_config", "decaylanguage.utils.utilities:DescriptorFormat.format_descriptor"]
 WORKERS = {"quick": 4, "thorough": 16}
+WTESTS = {"groups": ['descriptor_format'], "tests": ['tests/utils', 'tests/decay']}
 REQUIRED = {"nesting-depth>=3": 50, "reused-object-sequentially": 50, "reentrant-object": 50, "object-created-before-set_config": 50,
             "leave-by-exception-at-depth>=2": 50, "enter-invalid-context": 50, "render": 500,
             **{f"invalid:{k}": 20 for k in ("missing-mother", "missing-daughters", "extra-named", "positional", "attribute", "index", "nested-in-spec", "second-only")},
